@@ -1,6 +1,7 @@
 pub mod ans;
 pub mod backend;
 pub mod bits;
+pub mod chain;
 pub mod common;
 pub mod dynops;
 pub mod harness;
@@ -30,6 +31,8 @@ fn runs_for(prop: &str, thorough: bool) -> u64 {
         "C01" => (60_000, 1_500_000),
         "C02" => (60_000, 1_500_000),
         "C11" => (60_000, 1_500_000),
+        "C13" => (60_000, 1_500_000),
+        "C14" => (60_000, 1_500_000),
         "C16" => (100_000, 3_000_000),
         "C17" => (200_000, 6_000_000),
         "C04" => (60_000, 1_500_000),
